@@ -41,6 +41,21 @@ package scenario
 //@ props C16 C15
 //@ at call vs.NewVSJson assert arg(cfg) == cfg && arg(fs) == fs
 
+// Every request that names a templater gets one of its own: a templater caches parsed templates under
+// "<scenario>_<step>_<part>", which is unique only among the requests of one ammo file.
+//@ use templater "github.com/yandex/pandora/components/providers/scenario/http/templater"
+//@ func Import#lit0#lit5
+//@ props C15 C11
+//@ ensures [a-new-text-templater-per-request] calls(templater.NewTextTemplater) == 1 && result == result_of(templater.NewTextTemplater, 0)
+//@ func Import#lit0#lit6
+//@ props C15 C11
+//@ ensures [a-new-html-templater-per-request] calls(templater.NewHTMLTemplater) == 1 && result == result_of(templater.NewHTMLTemplater, 0)
+
+// Registration happens once per process, however often Import is called.
+//@ func Import
+//@ props C18 C15
+//@ may_panic true
+
 // The gRPC preprocessor keeps the configured mapping.
 //@ func Import#lit0#lit8
 //@ props C16 C20
